@@ -20,3 +20,16 @@ def load():
 
 def known_signatures(prop=None):
     return {f["signature"]: f for f in load() if f.get("status") == "known" and (prop is None or f["property"] == prop)}
+
+
+def match_known(signature, known):
+    """Exact signature, or a glob pattern (fnmatch) when the finding covers several call sites that share one cause.
+    Returns the key of the matching entry or None."""
+    import fnmatch
+
+    if signature in known:
+        return signature
+    for pat in known:
+        if any(ch in pat for ch in "*?[") and fnmatch.fnmatchcase(signature, pat):
+            return pat
+    return None
